@@ -137,7 +137,7 @@ Step(sem, st, op) ==
                 st1 == IF sem = "G1" /\ lt.status = "ok" THEN Despec(st, lt.st) ELSE st
                 rd == RdP(sem, st1, op.r.p)
             IN
-            IF lt.status # "ok" THEN R3(st, Missing, lt.status)
+            IF lt.status = "error" THEN R3(st, Missing, "error")
             ELSE IF rd.status # "ok" THEN rd
             ELSE IF sem # "I" /\ rd.st.taint > st1.taint THEN R3(st, Missing, "wild")   \* both sides evaluated before the store
             ELSE IF rd.res.t = "fresh" THEN R3(st, Missing, "wild")     \* the right side is the cell the left side just padded
@@ -245,36 +245,60 @@ TSub(tr, sels, v) ==
   ELSE [t |-> "obj", m |-> [k \in DOMAIN tr.m \cup {sel.k} |->
            IF k = sel.k THEN TSub(IF k \in DOMAIN tr.m THEN tr.m[k] ELSE Missing, Tail(sels), v) ELSE tr.m[k]]]
 
+\* ... and of its outcome: "ok", "error" (runtime error) or "open" (not fixed by the statement)
+RECURSIVE TStat(_, _)
+TStat(tr, sels) ==
+  IF sels = <<>> THEN "ok"
+  ELSE LET sel == Head(sels) IN
+  IF tr.t \in {"unset", "missing"} THEN
+     IF sel.s = "idx" /\ sel.i < 0 THEN "error" ELSE TStat(Missing, Tail(sels))
+  ELSE IF tr.t = "arr" /\ sel.s = "idx" THEN
+     LET j == Norm(Len(tr.items), sel.i) IN
+     IF j < 0 THEN "error" ELSE TStat(IF j < Len(tr.items) THEN tr.items[j + 1] ELSE Missing, Tail(sels))
+  ELSE IF tr.t = "obj" /\ sel.s = "key" THEN TStat(IF sel.k \in DOMAIN tr.m THEN tr.m[sel.k] ELSE Missing, Tail(sels))
+  ELSE IF tr.t = "str" /\ sel.s = "idx" THEN "open"
+  ELSE IF tr.t \in {"num", "str", "bool"} THEN "error"
+  ELSE "open"
+
 RawTree(st, n) == IF st.env[n].t = "unset" THEN Unset ELSE Tree(st, st.env[n], Fuel)
 
-V(name, bad) == IF bad THEN {name} ELSE {}
+\* a law: where its antecedent holds its consequence must; chk records that it was exercised (vacuity)
+L(name, ante, conseq) == [bad |-> IF ante /\ ~conseq THEN {name} ELSE {}, chk |-> IF ante THEN {name} ELSE {}]
+LAll(ls) == [bad |-> UNION {l.bad : l \in ls}, chk |-> UNION {l.chk : l \in ls}]
 StepLaws(st, op, r) ==
   LET st2 == r.st
-      okset == op.kind = "set" /\ r.status = "ok"
+      ok == r.status = "ok"
+      okset == op.kind = "set" /\ ok
       lit == MkLit("I", st, op.r)            \* only used for literal right-hand sides
       isLit == op.r.r \in {"num", "str", "arrlit", "objlit"}
       incs == {"preinc", "postinc", "predec", "postdec"}
-  IN
-  V("frame", okset /\ ~FrameLaw(IF isLit THEN lit.st ELSE st, st2, op.p))
-  \cup V("readback", okset /\ ReadPath(st2, op.p) # (IF isLit THEN lit.val ELSE ReadPath(st, op.r.p)))
-  \cup V("alias", r.status = "ok" /\ \E a, b \in ObsNames :
-                   /\ a # b /\ IsCont(st.env[a]) /\ st.env[a] = st.env[b]
-                   /\ ~(op.kind = "set" /\ op.p.sels = <<>> /\ op.p.base \in {a, b})
-                   /\ ~(op.kind \in UpdKinds /\ op.p.sels = <<>> /\ op.p.base \in {a, b})
-                   /\ Tree(st2, st2.env[a], Fuel) # Tree(st2, st2.env[b], Fuel))
-  \cup V("readpure", op.kind = "read" /\ st2 # st)
-  \cup V("tree", okset /\ op.r.r \in {"num", "str"} /\ NoSharing(st)
-                 /\ RawTree(st2, op.p.base) # TSub(RawTree(st, op.p.base), op.p.sels, lit.val))
-  \cup V("others", r.status = "ok" /\ op.kind \in {"set"} \cup UpdKinds /\ NoSharing(st)
-                 /\ \E n \in ObsNames \ {op.p.base} : RawTree(st2, n) # RawTree(st, n))
-  \cup V("incdec", r.status = "ok" /\ op.kind \in incs
-                 /\ LET old == NumOf(ReadPath(st, op.p))
-                        new == ReadPath(st2, op.p)
-                    IN ~(/\ new = Num(IF op.kind \in {"preinc", "postinc"} THEN old + 1 ELSE old - 1)
-                         /\ r.res = (IF op.kind \in {"preinc", "predec"} THEN new ELSE Num(old))))
-  \cup V("compound", r.status = "ok" /\ op.kind \in {"cadd", "csub"} /\ ReadPath(st, op.p).t \in {"num", "null"}
-                 /\ ReadPath(st2, op.p) # Num(NumOf(ReadPath(st, op.p)) + (IF op.kind = "cadd" THEN 2 ELSE -2)))
-  \cup V("updframe", r.status = "ok" /\ op.kind \in UpdKinds /\ ~FrameLaw(st, st2, op.p))
+  IN LAll({
+  \* a store changes only the deepest existing container on its path, only at the next selector
+  L("frame", okset, FrameLaw(IF isLit THEN lit.st ELSE st, st2, op.p)),
+  \* reading the target back yields what was stored (the same reference for a container)
+  L("readback", okset, ReadPath(st2, op.p) = (IF isLit THEN lit.val ELSE ReadPath(st, op.r.p))),
+  \* two names for one container still show the same tree after any operation that does not rebind them
+  L("alias", ok /\ \E a, b \in ObsNames : a # b /\ IsCont(st.env[a]) /\ st.env[a] = st.env[b],
+       \A a, b \in ObsNames :
+          (/\ a # b /\ IsCont(st.env[a]) /\ st.env[a] = st.env[b]
+           /\ ~(op.kind \in {"set"} \cup UpdKinds /\ op.p.sels = <<>> /\ op.p.base \in {a, b}))
+          => Tree(st2, st2.env[a], Fuel) = Tree(st2, st2.env[b], Fuel)),
+  L("readpure", op.kind = "read", st2 = st),
+  \* the outcome of a store (done / runtime error / not fixed) is the one of the tree semantics
+  L("status", op.kind = "set" /\ isLit, r.status = TStat(RawTree(st, op.p.base), op.p.sels)),
+  \* without sharing, the heap semantics equals substitution in the tree
+  L("tree", okset /\ op.r.r \in {"num", "str"} /\ NoSharing(st),
+       RawTree(st2, op.p.base) = TSub(RawTree(st, op.p.base), op.p.sels, lit.val)),
+  L("others", ok /\ op.kind \in {"set"} \cup UpdKinds /\ NoSharing(st),
+       \A n \in ObsNames \ {op.p.base} : RawTree(st2, n) = RawTree(st, n)),
+  L("incdec", ok /\ op.kind \in incs,
+       LET old == NumOf(ReadPath(st, op.p))
+           new == ReadPath(st2, op.p)
+       IN /\ new = Num(IF op.kind \in {"preinc", "postinc"} THEN old + 1 ELSE old - 1)
+          /\ r.res = (IF op.kind \in {"preinc", "predec"} THEN new ELSE Num(old))),
+  L("compound", ok /\ op.kind \in {"cadd", "csub"} /\ ReadPath(st, op.p).t \in {"num", "null"},
+       ReadPath(st2, op.p) = Num(NumOf(ReadPath(st, op.p)) + (IF op.kind = "cadd" THEN 2 ELSE -2))),
+  L("updframe", ok /\ op.kind \in UpdKinds, FrameLaw(st, st2, op.p)) })
 
 -----------------------------------------------------------------------------
 VARIABLES hist, cur, gst, out, fin, law, idx
@@ -310,12 +334,12 @@ Apply2(h, c, g, o, op, rI) ==
   IN [hist |-> Append(h, op),
       cur |-> [s \in Sems |-> CASE s = "I" -> rI.st [] s = "G0" -> r0.st [] OTHER -> r1.st],
       gst |-> [s \in Sems |-> CASE s = "I" -> rI.status [] s = "G0" -> r0.status [] OTHER -> r1.status],
-      out |-> Append(o, [exp |-> eI, skip |-> skip, pre |-> PreMissingIndex(c["I"], op),
+      out |-> Append(o, [exp |-> eI, skip |-> skip, pre |-> PreMissingIndex(c["I"], op), kind |-> op.kind,
                          dev |-> [d \in devs |-> IF d = "g0" THEN e0 ELSE e1],
                          taint |-> [g0 |-> r0.st.taint > 0, g1 |-> r1.st.taint > 0]]),
       fin |-> (rI.status # "ok" \/ skip # {}),
-      law |-> StepLaws(c["I"], op, rI)
-              \cup V("agree", r0.status \notin {"wild", "dead"} /\ r0.st.taint = 0 /\ e0 # eI)]
+      \* the slice-header semantics agrees with the intended one as long as no aliased array changed its length
+      law |-> LAll({StepLaws(c["I"], op, rI), L("agree", r0.status \notin {"wild", "dead"} /\ r0.st.taint = 0, e0 = eI)})]
 
 Apply(h, c, g, o, op) == Apply2(h, c, g, o, op, Step("I", c["I"], op))
 EnabledR(c, op, rI) == rI.status \in {"ok", "error"} /\ ~MakesCycle(c["I"], op)
@@ -323,8 +347,9 @@ Enabled(c, op) == EnabledR(c, op, Step("I", c["I"], op))
 
 RECURSIVE Run(_, _)
 Run(s, ops) == IF ops = <<>> THEN s ELSE Run(Apply(s.hist, s.cur, s.gst, s.out, Head(ops)), Tail(ops))
+NoLaw == [bad |-> {}, chk |-> {}]
 Start == [hist |-> <<>>, cur |-> [s \in Sems |-> IF s = "I" THEN InitI ELSE InitG], gst |-> [s \in Sems |-> "ok"],
-          out |-> <<>>, fin |-> FALSE, law |-> {}]
+          out |-> <<>>, fin |-> FALSE, law |-> NoLaw]
 
 \* run a given history, skipping what is not enabled, stopping when the history is over
 RECURSIVE RunGiven(_, _)
@@ -332,12 +357,12 @@ RunGiven(s, ops) ==
   IF ops = <<>> \/ s.fin THEN s
   ELSE IF ~Enabled(s.cur, Head(ops)) THEN RunGiven(s, Tail(ops))
   ELSE LET t == Apply(s.hist, s.cur, s.gst, s.out, Head(ops))
-       IN RunGiven([t EXCEPT !.law = @ \cup s.law], Tail(ops))
+       IN RunGiven([t EXCEPT !.law = LAll({@, s.law})], Tail(ops))
 Given == IF Mode = "given" THEN JsonDeserialize("given.json") ELSE <<>>
 
 Init == IF Mode = "given"
         THEN /\ idx \in 1..Len(Given)
-             /\ hist = Start.hist /\ cur = Start.cur /\ gst = Start.gst /\ out = Start.out /\ fin = FALSE /\ law = {}
+             /\ hist = Start.hist /\ cur = Start.cur /\ gst = Start.gst /\ out = Start.out /\ fin = FALSE /\ law = NoLaw
         ELSE /\ idx = 0
              /\ \E pre \in (IF Mode = "breadth" THEN Prefixes ELSE {<<>>}) :
                   LET s == Run(Start, pre) IN
@@ -364,7 +389,7 @@ NextOp ==
 Next == NextGiven \/ NextOp
 \* every variable is a function of (hist, idx)
 View == <<hist, idx>>
-Laws == law = {}
+Laws == law.bad = {}
 
 \* compact JSON form of a tree: number, string, boolean, array, {"o": members}, "~null", "~unset"
 RECURSIVE Compact(_)
@@ -376,5 +401,5 @@ Compact(tr) ==
 CompactExp(e) == IF e.st # "ok" THEN e ELSE [st |-> "ok", res |-> Compact(e.res), vars |-> [n \in ObsNames |-> Compact(e.vars[n])]]
 CompactStep(s) == [exp |-> CompactExp(s.exp), skip |-> s.skip, taint |-> s.taint, pre |-> s.pre,
                    dev |-> [d \in DOMAIN s.dev |-> CompactExp(s.dev[d])]]
-Vec == hist # <<>> => Emit([ops |-> hist, steps |-> [i \in 1..Len(out) |-> CompactStep(out[i])]])
+Vec == hist # <<>> => Emit([ops |-> hist, chk |-> law.chk, steps |-> [i \in 1..Len(out) |-> CompactStep(out[i])]])
 =============================================================================
